@@ -76,7 +76,7 @@ impl<H: Hal, const SIZE: usize, const BUFFER_SIZE: usize> OwningQueue<H, SIZE, B
         Ok(())
     }
 
-    fn pop(&mut self) -> Result<Option<(&[u8], u16)>> {
+    fn pop(&mut self) -> Result<Option<(Result<&[u8]>, u16)>> {
         let Some(token) = self.queue.peek_used() else {
             return Ok(None);
         };
@@ -97,12 +97,15 @@ impl<H: Hal, const SIZE: usize, const BUFFER_SIZE: usize> OwningQueue<H, SIZE, B
             .unwrap();
 
         // The device reports how many bytes it wrote; reject if it claims more than the buffer
-        // size.
-        if len > BUFFER_SIZE {
-            return Err(Error::IoError);
-        }
+        // size. The buffer has been popped already, so the caller must still add it back to the
+        // queue.
+        let buffer = if len > BUFFER_SIZE {
+            Err(Error::IoError)
+        } else {
+            Ok(&buffer[0..len])
+        };
 
-        Ok(Some((&buffer[0..len], token)))
+        Ok(Some((buffer, token)))
     }
 
     /// Checks whether there are any buffers which the device has marked as used so the driver
@@ -124,7 +127,7 @@ impl<H: Hal, const SIZE: usize, const BUFFER_SIZE: usize> OwningQueue<H, SIZE, B
             return Ok(None);
         };
 
-        let result = handler(buffer);
+        let result = buffer.and_then(handler);
 
         // SAFETY: The buffer was just popped from the queue so it's not in it, and there won't be
         // any other references until next time it's popped.
